@@ -1396,6 +1396,19 @@ fn fam_coeff(rng: &mut Rng, n: usize, out: &mut Out) {
             &format!("f_coeff {} {} {} {} {} {}", typ, sk, sv.to_bits(), w0.to_bits(), gain.to_bits(), shelf.to_bits()),
             Some(list(&flat.map(|v| v.to_bits()))),
         );
+        if i % 3 == 0 && f0 >= 1e-2 && sv <= 10.0 {
+            // the f32 instantiation of the builder (op f_coeff32, binary32 model arithmetic)
+            let (w32, sv32, g32, sh32) = (w0 as f32, sv as f32, gain as f32, shelf as f32);
+            let mut f = idsp::iir::Filter::<f32>::default();
+            f.angular_critical_frequency(w32).gain(g32).shelf(sh32);
+            match sk { 0 => { f.q(sv32); } 1 => { f.bandwidth(sv32); } _ => { f.shelf_slope(sv32); } }
+            let ba = match typ { 0 => f.lowpass(), 1 => f.highpass(), 2 => f.bandpass(), 3 => f.allpass(), 4 => f.notch(), 5 => f.peaking(), 6 => f.lowshelf(), 7 => f.highshelf(), _ => f.iho() };
+            let flat = [ba[0][0], ba[0][1], ba[0][2], ba[1][0], ba[1][1], ba[1][2]];
+            out.emit(
+                &format!("f_coeff32 {} {} {} {} {} {}", typ, sk, sv32.to_bits(), w32.to_bits(), g32.to_bits(), sh32.to_bits()),
+                Some(list(&flat.map(|v| v.to_bits()))),
+            );
+        }
         if i % 2 == 0 && flat.iter().all(|v| v.is_finite()) {
             let fb = list(&flat.map(|v| v.to_bits()));
             match i % 6 {
@@ -1471,6 +1484,31 @@ fn fam_pid(rng: &mut Rng, n: usize, out: &mut Out) {
             1 => { if let Some(c) = guard(|| b.build::<i32>()) { out.emit(&lhs(32, 30), Some(list(&c))); } }
             2 => { if let Some(c) = guard(|| b.build::<i64>()) { out.emit(&lhs(64, 62), Some(list(&c))); } }
             _ => { if let Some(c) = guard(|| b.build::<i16>()) { out.emit(&lhs(16, 14), Some(list(&c))); } }
+        }
+        // the f32 instantiation of the builder, with gains many decades apart (op f_pid32, compared per gain)
+        if i % 2 == 0 {
+            let dec = |rng: &mut Rng| -> f32 { 10f32.powi(rng.range(-9, 4) as i32) * (1.0 + rng.below(900) as f32 / 100.0) };
+            let period = 10f32.powi(rng.range(-3, 1) as i32) * (1.0 + rng.below(9) as f32);
+            let order = [Order::P, Order::I, Order::I2][rng.below(3) as usize];
+            let sign: f32 = if rng.chance(1, 4) { -1.0 } else { 1.0 };
+            let mut b = PidBuilder::<f32>::default();
+            let mut gains = [0f32; 5];
+            let mut limits = [f32::INFINITY; 5];
+            for j in 0..5 {
+                if rng.chance(2, 3) { gains[j] = sign * dec(rng); }
+                if rng.chance(1, 4) { limits[j] = sign * dec(rng) * 1e3; }
+            }
+            b.period(period).order(order);
+            for j in 0..5 { b.gain(acts[j], gains[j]).limit(acts[j], limits[j]); }
+            let lhs = |w: u32, q: u32| format!("f_pid32 {} {} {} {} {} {}", w, q, period.to_bits(), order as usize, list(&gains.map(|v| v.to_bits())), list(&limits.map(|v| v.to_bits())));
+            match if crate::MODE == 'C' { (i / 2) % 3 } else { 0 } {
+                0 => {
+                    let c: [f64; 5] = b.build();
+                    if c.iter().all(|v| v.is_finite()) { out.emit(&lhs(0, 0), Some(list(&c.map(|v| v.to_bits())))); }
+                }
+                1 => { if let Some(c) = guard(|| b.build::<i32>()) { out.emit(&lhs(32, 30), Some(list(&c))); } }
+                _ => { if let Some(c) = guard(|| b.build::<i64>()) { out.emit(&lhs(64, 62), Some(list(&c))); } }
+            }
         }
     }
 }
